@@ -200,6 +200,52 @@ fn exec(st: &mut St, req: &Value) -> Value {
                        "membership_equal": a_applied.map(|x| x.1) == b_applied.map(|x| x.1)})
             })
         }
+        // C20 part 2, concurrent: an applier thread keeps applying entries to adapter A while the snapshot is built (openraft builds
+        // snapshots in a spawned task while the state-machine worker keeps applying). The application's snapshot() takes `delay_us`
+        // (a real application serialises a large state), which is what makes the window observable.
+        "snapshot_transfer_concurrent" => {
+            struct Slow { inner: KvStateMachine, delay_us: u64 }
+            impl StateMachineTrait for Slow {
+                fn apply(&self, c: &[u8]) -> std::result::Result<bytes::Bytes, String> { self.inner.apply(c) }
+                fn snapshot(&self) -> Vec<u8> { std::thread::sleep(std::time::Duration::from_micros(self.delay_us)); self.inner.snapshot() }
+                fn restore(&self, d: &[u8]) -> std::result::Result<(), String> { self.inner.restore(d) }
+            }
+            let delay_us = req["delay_us"].as_u64().unwrap_or(300);
+            let app_a = Arc::new(Slow { inner: KvStateMachine::in_memory(), delay_us });
+            let app_b: Arc<KvStateMachine> = Arc::new(KvStateMachine::in_memory());
+            let a = new_mem_state_machine(app_a.clone());
+            let mut b = new_mem_state_machine(app_b.clone());
+            let cmds: Vec<String> = req["cmds"].as_array().map(|x| x.iter().filter_map(|c| c.as_str().map(|s| s.to_string())).collect()).unwrap_or_default();
+            let pause_us = req["pause_us"].as_u64().unwrap_or(50);
+            let start_after = req["start_after"].as_u64().unwrap_or(0) as usize;
+            let applied = Arc::new(std::sync::atomic::AtomicUsize::new(0));
+            let mut a_applier = a.clone();
+            let cmds2 = cmds.clone();
+            let applied2 = applied.clone();
+            let h = std::thread::spawn(move || {
+                for (i, c) in cmds2.iter().enumerate() {
+                    let e: Vec<Result<(Entry<AppTypeConfig>, Option<Responder<AppTypeConfig>>), std::io::Error>> =
+                        vec![Ok((Entry { log_id: LogId::new(1, 1, i as u64 + 1), payload: EntryPayload::Normal(AppEntry(c.as_bytes().to_vec())) }, None))];
+                    let _ = tokio::block_on(a_applier.apply(futures::stream::iter(e)));
+                    applied2.store(i + 1, std::sync::atomic::Ordering::SeqCst);
+                    if pause_us > 0 { std::thread::sleep(std::time::Duration::from_micros(pause_us)); }
+                }
+            });
+            while applied.load(std::sync::atomic::Ordering::SeqCst) < start_after.min(cmds.len()) { std::thread::yield_now(); }
+            let mut a_builder = a.clone();
+            let snap = tokio::block_on(a_builder.build_snapshot());
+            let _ = h.join();
+            let snap = match snap { Ok(s) => s, Err(e) => return json!({"err": format!("build_snapshot: {e}")}) };
+            let last_index = snap.meta.last_log_id.map(|l| l.index).unwrap_or(0);
+            let r = tokio::block_on(b.install_snapshot(&snap.meta, snap.snapshot));
+            let b_after_install = kv_dump(&app_b);
+            // the receiver then applies every entry after the snapshot's log id, as Raft replication would
+            let rest: Vec<Result<(Entry<AppTypeConfig>, Option<Responder<AppTypeConfig>>), std::io::Error>> = cmds.iter().enumerate().skip(last_index as usize)
+                .map(|(i, c)| Ok((Entry { log_id: LogId::new(1, 1, i as u64 + 1), payload: EntryPayload::Normal(AppEntry(c.as_bytes().to_vec())) }, None))).collect();
+            let r2 = tokio::block_on(b.apply(futures::stream::iter(rest)));
+            json!({"ok": true, "snapshot_last_index": last_index, "b_after_install": b_after_install, "a_final": kv_dump(&app_a.inner), "b_final": kv_dump(&app_b),
+                   "errors": [r.err().map(|e| e.to_string()), r2.err().map(|e| e.to_string())]})
+        }
         "ping" => json!({"ok": true}),
         _ => json!({"err": "badop"}),
     }
